@@ -401,14 +401,11 @@ def given_parameters_honoured(ctx, rule='C19-R7'):
                   instance=f"convert_kwargs: default '{key}' belongs to {want_fct}")
         mode_lits = [l for l in guard_literals(e.guard) if T.contains(
             l, lambda x: x == C('mode') or (tag(x) in ('col', 'sub') and x[2] in ('mode', C('mode'))))]
-        mode_ok = bool(mode_lits) and all(
-            (tag(l) == 'cmp' and l[1] == 'eq' and C('do') in (l[2], l[3])) or
-            (tag(l) == 'not' and tag(l[1]) == 'cmp' and l[1][1] == 'in' and l[1][2] == C('mode')) or
-            (tag(l) == 'cmp' and l[1] == 'in' and l[2] == C('mode')) or
-            (tag(l) == 'or' and all((tag(x) == 'cmp' and x[1] == 'eq' and C('do') in (x[2], x[3])) or
-                                    (tag(x) == 'not' and tag(x[1]) == 'cmp' and x[1][1] == 'in' and x[1][2] == C('mode'))
-                                    for x in l[1]))
-            for l in mode_lits)
+        # the guard entails "mode is 'do', or no mode was given" (decided propositionally over the atoms of the guard)
+        do_atoms = [a for a in T.walk(e.guard) if tag(a) == 'cmp' and a[1] == 'eq' and C('do') in (a[2], a[3])
+                    and T.contains(a, lambda x: x == C('mode') or (tag(x) in ('col', 'sub') and x[2] in ('mode', C('mode'))))]
+        in_atoms = [a for a in T.walk(e.guard) if tag(a) == 'cmp' and a[1] == 'in' and a[2] == C('mode')]
+        mode_ok = bool(mode_lits) and T.implies(e.guard, T.mk_or(do_atoms + [T.mk_not(a) for a in in_atoms])) is True
         ctx.check(mode_ok, rule, q, e.node, e.loc(),
                   f"the default for '{key}' is derived under {T.show(T.mk_and(mode_lits), maxlen=120) if mode_lits else 'no mode test'}: "
                   "parameters may only be derived from the data when scaling ('do', or no mode given), never when un-doing",
@@ -420,6 +417,42 @@ def given_parameters_honoured(ctx, rule='C19-R7'):
                   'data maximum, undo() refuses, and the pair is no longer forward / backward',
                   instance=f"convert_kwargs: default '{key}' only when the key is absent")
     ctx.floor(rule, 'data-derived defaults stored by convert_kwargs', n, 2)
+    # completeness: whatever convert_kwargs returns for a scaling that needs data-derived parameters carries them all
+    # (else do() falls back on the extremum of whatever it is handed, and undo() of the scaled data on another one)
+    KW = ('p', '**kwargs')
+    evs = fx.deep_events(q)
+    needs = {'shift-and-scale': ('shift',), 'minmax-scale': ('min_val', 'max_val')}
+
+    def key_of(e):
+        tgt = e.target
+        if tag(tgt) not in ('col', 'sub') or not T.contains(tgt[1], lambda x: x == KW):
+            return None
+        return tgt[2] if tag(tgt) == 'col' else (tgt[2][1] if T.is_const(tgt[2]) else None)
+    def present(a, k):
+        if not (tag(a) == 'cmp' and a[1] == 'in' and a[2] == C(k)):
+            return False
+        c = T.peel(a[3])
+        if tag(c) == 'mcall' and c[2] == 'keys':
+            c = T.peel(c[1])
+        return T.root(c) == KW
+    nret = 0
+    for e in evs:
+        if e.kind != 'return' or e.ctx:
+            continue
+        names = [l[2][1] if T.is_const(l[2]) else l[3][1] for l in guard_literals(e.guard)
+                 if tag(l) == 'cmp' and l[1] == 'eq' and KW not in (l[2], l[3]) and ('p', 'fct') in (l[2], l[3])
+                 and (T.is_const(l[2]) or T.is_const(l[3]))]
+        for k in needs.get(names[0] if len(names) == 1 else None, ()):
+            nret += 1
+            have = [a for a in T.walk(e.guard) if present(a, k)] + [s.guard for s in evs if s.kind == 'store'
+                                                                     and s.seq < e.seq and key_of(s) == k]
+            ok = T.implies(e.guard, T.mk_or(have))
+            ctx.check(ok is True, rule, q, e.node, e.loc(),
+                      f"convert_kwargs returns the parameters of '{names[0]}' without '{k}' when {T.show(e.guard, maxlen=200)}: "
+                      'the key is neither given nor derived on this path, so the scaling falls back on the extremum of whatever '
+                      'array it is handed and the derived parameters do not undo it',
+                      instance=f"convert_kwargs: '{k}' present in every result for {names[0]}")
+    ctx.floor(rule, 'results of convert_kwargs checked for completeness', nret, 3)
 
 
 # ---------------------------------------------------------------------------------------------- C19-R8
@@ -457,6 +490,23 @@ def routine_defaults_and_dispatch(ctx, rule='C19-R8'):
                 why = f'a missing {prm} becomes {T.show(dflt, maxlen=80)}: expected {red.split(".")[-1]}(vals)'
             ctx.check(ok, rule, q, f.node.name, f.loc(), f'{name}: {why}',
                       instance=f'{name}: {prm} defaults to {red.split(".")[-1]}(vals) when None, and only then')
+    # convert_kwargs derives parameters when no mode is given, i.e. it takes an absent mode for 'do': every routine that
+    # apply_scaling dispatches to must then scale (not un-scale) when it is called without a mode
+    import ast as _ast
+    for name in ('shift_and_scale', 'minmax_scale', 'step_scale'):
+        q = f'{MOD}.{name}'
+        f = p.func(q, rule)
+        ctx.saw(f)
+        a = f.node.args
+        pos = a.posonlyargs + a.args
+        dflt = dict(zip([x.arg for x in pos[len(pos) - len(a.defaults):]], a.defaults))
+        dflt.update({x.arg: d for x, d in zip(a.kwonlyargs, a.kw_defaults) if d is not None})
+        d = dflt.get('mode')
+        n += 1
+        ctx.check(isinstance(d, _ast.Constant) and d.value == 'do', rule, q, f.node.name, f.loc(),
+                  f"{name}: the default of `mode` is {_ast.unparse(d) if d is not None else 'missing'}: convert_kwargs derives "
+                  "the parameters of a scaling when no mode is given (an absent mode means 'do'), so a routine called "
+                  'without a mode must scale, not un-scale', instance=f"{name}: mode defaults to 'do'")
     # dispatch
     q = f'{MOD}.apply_scaling'
     f = p.func(q, rule)
@@ -482,4 +532,4 @@ def routine_defaults_and_dispatch(ctx, rule='C19-R8'):
     ctx.check(found == set(table.values()), rule, q, f.node.name, f.loc(),
               f'apply_scaling dispatches to {sorted(x.split(".")[-1] for x in found)}: one of the three scalings is unreachable',
               instance='apply_scaling: three routines reachable')
-    ctx.floor(rule, 'defaults and dispatch obligations', n, 6)
+    ctx.floor(rule, 'defaults and dispatch obligations', n, 9)
